@@ -473,6 +473,23 @@ def gen_empty_vs_concrete_merge(rng):
     return out
 
 
+def gen_one_pass_residue(rng):
+    """three or more similar models whose merged field needs BOTH passes `merge_models` applies (what one pass leaves:
+    a second `Any`, a second `int` next to `float`, `str` from a literal overflow next to a pseudo-type)"""
+    rest = {"g": 1, "h": "t", "i": 2.5, "j": True}
+    kind = rng.choice(["two-unknowns", "int-twice", "literal-overflow"])
+    if kind == "two-unknowns":
+        holders = [[dict(rest, f=[]), dict(rest, f=[None])], dict(rest, f=[]), dict(rest, f=[rng.choice([1, "s", 2.5])])]
+    elif kind == "int-twice":
+        holders = [dict(rest, f=1.5), [dict(rest, f=1), dict(rest, f="a"), dict(rest)], dict(rest, f=7)]
+    else:
+        a = [dict(rest, f="w%d" % i) for i in range(8)]
+        b = [dict(rest, f="v%d" % i) for i in range(8)] + [dict(rest, f="12"), dict(rest)]
+        holders = [a, b, dict(rest, f="w0")]
+    rng.shuffle(holders)
+    return {"m%d" % i: h for i, h in enumerate(holders)}
+
+
 def gen_shared_samples(rng):
     return [gen_shared_shape(rng) for _ in range(rng.randint(1, 2))]
 
